@@ -54,6 +54,15 @@ func Spec(id, tier string) *core.CheckSpec {
 			{Engine: "chainsim", Label: "swarm", Seconds: sec(60, 600), Opt: core.Options{}},
 			{Engine: "chainsim", Label: "late-forks", Seconds: sec(30, 300), Opt: core.Options{Params: p("forks", "late")}},
 		}
+		if id == "C12" {
+			cs.Batches[0].Seconds = sec(50, 500)
+			cs.Batches[1].Seconds = sec(25, 250)
+			cs.Batches = append(cs.Batches, core.Batch{Engine: "chainsim", Label: "wide-committees", Seconds: sec(25, 300), Opt: core.Options{Params: p("director", "wide")}})
+			if !q {
+				// 32 slots per epoch: from deneb on a vote may be propagated for up to 63 slots, not 32
+				cs.Batches = append(cs.Batches, core.Batch{Engine: "chainsim", Label: "mainnet-preset", Seconds: 400, Opt: core.Options{Params: p("preset", "mainnet")}})
+			}
+		}
 		if id == "C04" || id == "C05" {
 			// every exported SSZ type behind the stream seam (object store with faulty disk and wire)
 			cs.Batches[0].Seconds = sec(40, 500)
